@@ -487,10 +487,12 @@ func c14HTTP(c *RunCtx) {
 							candidates = append(candidates, "access."+cutQuery(nm), "get."+cutQuery(nm))
 						}
 					case "POST":
-						base := cutQuery(nm)
-						if j := strings.LastIndexByte(base, '.'); j > 0 && strings.IndexByte(nm, '?') < 0 {
-							if refNameOK(base[:j]) && refTokenValid(base[j+1:]) {
-								candidates = append(candidates, "access."+base[:j], "call."+base[:j]+"."+base[j+1:])
+						// the last path segment is the method, what precedes it the
+						// resource id (a decoded '?' in it starts its query, as for GET)
+						if j := strings.LastIndexByte(nm, '.'); j > 0 {
+							base, act := cutQuery(nm[:j]), nm[j+1:]
+							if refNameOK(base) && refTokenValid(act) {
+								candidates = append(candidates, "access."+base, "call."+base+"."+act)
 							}
 						}
 					default:
